@@ -171,6 +171,11 @@ func (r *Reporter) Finish() int {
 		fmt.Printf("VIOLATION property=%s replay=%s\n", r.Property, p)
 		fmt.Printf("  %s\n", v.Message)
 	}
+	if os.Getenv("VERIF_KEYS") != "" {
+		for _, v := range r.newV {
+			fmt.Printf("KEY %s\n    %s\n", v.Key, strings.ReplaceAll(v.Message, "\n", "\n    "))
+		}
+	}
 	if len(r.newV) > 5 {
 		fmt.Printf("  (+%d more distinct violations)\n", len(r.seenKeys)-5)
 	}
